@@ -68,9 +68,8 @@ ASSUMPTIONS = [
     "ModeWrapper are checked by the Python oracle here and modelled in Coq under C02 (AttrModel.AMode)",
     "DataLoader cases: torch's default_collate and the fetcher are trusted to hand over what dataset[i] returns; the "
     "check is that un-collating the batches gives back the samples of plain iteration (which model and spec cover), "
-    "with num_workers 0 (quick) and 2 (thorough), and that has/get/set_item address the right column of a real batch; "
-    "a one-item batch that is itself a list / tuple (strings, multi-view items) is ambiguous for the static helpers "
-    "(isinstance(batch, (list, tuple)) reads it as a several-item batch) and is not claimed",
+    "with num_workers 0 (quick) and 2 (thorough), and that has/get/set_item address the right column of a real batch "
+    "(a one-item mode: the batch itself, also when it is a list / tuple -- decided by the mode since repair 54b49a1)",
 ]
 ALLOWED_AXIOMS = []
 KNOWN_FINDINGS_PROPOSED = [
@@ -935,7 +934,17 @@ def access_steps(case, n, raw):
     return steps
 
 
+def _helper_batch(h):
+    b = h["batch"]
+    return b["bare"] if "bare" in b else (tuple(b["tuple"]) if b.get("as") != "list" else list(b["tuple"]))
+
+
 def _helper_oracle(h, o):
+    """has_item / get_item_index / add_item: membership / first position in mode.split(" ").  get_item / set_item:
+    "single item" is decided by the MODE: with one item the batch is the item itself, whatever its type (a multi-view
+    item is a list / tuple of views) -- get_item returns the batch, set_item the value, AssertionError when another
+    item than the mode's is named; with several items the batch must be a list / tuple (AssertionError otherwise),
+    get_item returns the element at the item's first position, set_item a tuple with exactly that position replaced"""
     items = h["mode"].split(" ")
     it = h["item"]
     if o["has"] != (it in items):
@@ -945,27 +954,26 @@ def _helper_oracle(h, o):
         return f"get_item_index({h['mode']!r}, {it!r}) = {o['index']}, expected {pos}"
     if o["add"] != (h["mode"] if it in items else h["mode"] + " " + it):
         return f"add_item({h['mode']!r}, {it!r}) = {o['add']!r}"
-    b = h["batch"]
-    if "bare" in b:
-        if len(items) == 1:
-            if o["get"] != enc(b["bare"]):
-                return f"get_item on a bare batch of mode {h['mode']!r} returned {o['get']}"
-            if o["set"] != enc(h["value"]):
-                return f"set_item on a bare batch of mode {h['mode']!r} returned {o['set']} (expected the value itself)"
-        elif o["get"] is not None or o["set"] is not None:
-            return f"bare batch with a {len(items)}-item mode accepted"
+    batch = _helper_batch(h)
+    if len(items) == 1:
+        exp_get, exp_set = (enc(batch), enc(h["value"])) if it == items[0] else (None, None)
+        why = "single-item mode: the batch is the item itself" if it == items[0] else \
+            "single-item mode and another item than the mode's: AssertionError"
+    elif not isinstance(batch, (list, tuple)):
+        exp_get = exp_set = None
+        why = f"a {len(items)}-item mode needs a list / tuple batch: AssertionError"
+    elif pos is None:
+        exp_get = exp_set = None
+        why = "the item is not in the mode: ValueError"
     else:
-        tup = b["tuple"]
-        if pos is None:
-            if o["get"] is not None or o["set"] is not None:
-                return f"item {it!r} is not in mode {h['mode']!r} but get/set_item returned {o['get']} / {o['set']}"
-        else:
-            exp_get = enc(tup[pos]) if pos < len(tup) else None
-            if o["get"] != exp_get:
-                return f"get_item({h['mode']!r}, {it!r}, {tup}) = {o['get']}, expected {exp_get}"
-            exp_set = enc(tuple(h["value"] if i == pos else t for i, t in enumerate(tup)))
-            if o["set"] != exp_set:
-                return f"set_item({h['mode']!r}, {it!r}, {tup}, {h['value']!r}) = {o['set']}, expected {exp_set}"
+        exp_get = enc(batch[pos]) if pos < len(batch) else None
+        exp_set = enc(tuple(h["value"] if i == pos else t for i, t in enumerate(batch)))
+        why = f"several-item mode: position {pos}"
+    if o["get"] != exp_get:
+        return f"get_item({h['mode']!r}, {it!r}, {batch!r}) = {o['get']}, expected {exp_get} ({why}; None = exception)"
+    if o["set"] != exp_set:
+        return (f"set_item({h['mode']!r}, {it!r}, {batch!r}, {h['value']!r}) = {o['set']}, expected {exp_set} ({why}; "
+                f"None = exception)")
     return None
 
 
@@ -1261,12 +1269,11 @@ def _dl_oracle(case, obs, n):
                         f"({it['res'][j]} vs batch {batch})")
         body = _seq(batch)[0] if case["rc"] else batch
         if len(items) == 1:
-            # a one-item batch is bare: a tensor is handed back as it is and replaced by the value; a batch that is itself
-            # a list / tuple (strings, multi-view items) is indistinguishable from a several-item batch for the static
-            # helpers: not claimed
+            # single-item mode (decided by the mode): the collated batch is the item itself whatever its type -- a tensor,
+            # or a list / tuple (strings, multi-view items): get_item hands it back, set_item returns the value
             o = hs[items[0]]
-            if o["bare"] and (o.get("get") != body or o.get("set") != {"s": "V"}):
-                return f"DataLoader batch {b}: get_item/set_item on the bare batch of mode {case['mode']!r} gave {o}"
+            if o.get("get") != body or o.get("set") != {"s": "V"} or o.get("getset") != {"s": "V"}:
+                return f"DataLoader batch {b}: get_item/set_item on the batch of the one-item mode {case['mode']!r} gave {o}"
             continue
         comps = _seq(body)
         for it_name, o in hs.items():
@@ -1295,7 +1302,16 @@ def cval(e):
         return C("VInt", e["i"])
     if "t" in e:
         return C("Tup", [cval(a) for a in e["t"]])
+    if "l" in e:
+        return C("Tup", [cval(a) for a in e["l"]])      # (list vs tuple is compared by the Python oracle only)
     return Raw("VNone")
+
+
+def cbatch(e):
+    """a batch-shaped object in enc() form: list / tuple -> BTuple, anything else -> BBare"""
+    if "t" in e or "l" in e:
+        return C("BTuple", [cval(a) for a in (e["t"] if "t" in e else e["l"])])
+    return C("BBare", cval(e))
 
 
 def ccomp(e):
@@ -1389,20 +1405,22 @@ def coq_case(case, obs):
                             else Opt([cstr(s) for s in o["log"]]), h_len=o.get("len", 0)))
     helpers = []
     for h, o in zip(case.get("helpers", []), obs["helpers"]):
-        b = h["batch"]
-        cb = C("BBare", C("VStr", cstr(b["bare"]))) if "bare" in b else \
-            C("BTuple", [C("VStr", cstr(t)) for t in b["tuple"]])
+        single = len(h["mode"].split(" ")) == 1
+        cb = cbatch(enc(_helper_batch(h)))
+        # single-item mode: what get_item returns is the batch itself (batch-shaped), set_item the value; several-item
+        # mode: get_item returns one element, set_item a tuple
+        if o["get"] is None:
+            cg = Raw("None")
+        else:
+            cg = Opt(cbatch(o["get"]) if single else C("BBare", cval(o["get"])))
         if o["set"] is None:
             cs = Raw("None")
-        elif "t" in o["set"]:
-            cs = Opt(C("BTuple", [cval(a) for a in o["set"]["t"]]))
         else:
-            cs = Opt(C("BBare", cval(o["set"])))
+            cs = Opt(C("BBare", cval(o["set"])) if single else cbatch(o["set"]))
         helpers.append(Rec(hp_mode=cstr(h["mode"]), hp_item=cstr(h["item"]), hp_batch=cb,
                            hp_value=C("VStr", cstr(h["value"])), hp_has=o["has"],
                            hp_index=Opt(Nat(o["index"])) if o["index"] is not None else Raw("None"),
-                           hp_get=Opt(cval(o["get"])) if o["get"] is not None else Raw("None"),
-                           hp_set=cs, hp_add=cstr(o["add"])))
+                           hp_get=cg, hp_set=cs, hp_add=cstr(o["add"])))
     torch = []
     for t, o in zip(case.get("torch", []), obs["torch"]):
         torch.append(([cstr(s) for s in t["tmode"].split(" ")], [C("VStr", cstr(a)) for a in t["tup"]],
@@ -1520,17 +1538,24 @@ def weave(rng, a, b):
 
 
 def gen_helper(rng):
-    its = [rng.choice(POOL + ["index"]) for _ in range(rng.choice([1, 1, 2, 3, 4]))]
+    """static helpers: modes of 1-4 items (40% single-item); the named item in the mode or not (single-item mode with
+    ANOTHER item's name: AssertionError); batches: a bare object, or a list / tuple -- in single-item modes too (a
+    multi-view item [V0, V1] is the item itself), with the mode's length or another one, elements now and then
+    themselves lists of views; a bare batch in a several-item mode (AssertionError)"""
+    its = [rng.choice(POOL + ["index"]) for _ in range(rng.choice([1, 1, 1, 2, 2, 3, 4]))]
     if rng.random() < 0.1:
         # whitespace variants: double / leading / trailing spaces give empty items, repeated items
         its.insert(rng.randint(0, len(its)), rng.choice(["", "", its[0]]))
     mode = " ".join(its)
-    item = rng.choice(its) if rng.random() < 0.8 else rng.choice(POOL + ["index", "ctx.k"])
+    item = rng.choice(its) if rng.random() < 0.75 else rng.choice(POOL + ["index", "ctx.k"])
     if rng.random() < 0.3:
         batch = {"bare": "B"}
     else:
-        ln = len(its) if rng.random() < 0.8 else rng.randint(0, 5)
-        batch = {"tuple": [f"b{i}" for i in range(ln)], "as": rng.choice(["tuple", "list"])}
+        ln = len(its) if rng.random() < 0.6 else rng.randint(0, 5)
+        if len(its) == 1 and rng.random() < 0.6:
+            ln = rng.choice([2, 2, 3, 1, 0])          # the views of a multi-view item
+        elems = [f"b{i}" if rng.random() < 0.85 else [f"v{i}.0", f"v{i}.1"] for i in range(ln)]
+        batch = {"tuple": elems, "as": rng.choice(["tuple", "list"])}
     return {"mode": mode, "item": item, "batch": batch, "value": "V"}
 
 
@@ -1809,6 +1834,24 @@ def directed_cases():
     c["raises"] = [[0, "class", 1]]
     out.append(c)
     out.append(_mk(0, root, [], "x", False, eps[0][:6] + eps[3]))
+    # static helpers: "single item" is decided by the mode.  Single-item modes with bare / list / tuple / empty / nested
+    # batches (multi-view items) and with another item's name (AssertionError); several-item modes with a bare batch
+    # (AssertionError), an absent item (ValueError), a short batch (IndexError for get_item only), list batches,
+    # elements that are lists of views, repeated items, the empty mode
+    hp = []
+    batches = [{"bare": "B"}, {"tuple": ["V0", "V1"], "as": "list"}, {"tuple": ["V0", "V1"], "as": "tuple"},
+               {"tuple": [], "as": "list"}, {"tuple": ["b0"], "as": "list"}, {"tuple": ["b0"], "as": "tuple"},
+               {"tuple": [["v0", "v1"], "b1"], "as": "tuple"}, {"tuple": ["b0", ["v0", "v1"], "b2"], "as": "list"}]
+    for md, its_ in (("x", ["x", "class", "index"]), ("", ["", "x"]), ("index", ["index", "x"]),
+                     ("x class", ["x", "class", "y"]), ("x x", ["x", "y"]), ("class index x", ["x", "class", "index", "z"]),
+                     ("x ", ["x", ""])):
+        for it_ in its_:
+            for bt in batches:
+                hp.append({"mode": md, "item": it_, "batch": bt, "value": "V"})
+    for lo in range(0, len(hp), 24):
+        c = _mk(3, root, [], "x", False, hist[:1])
+        c["helpers"] = hp[lo:lo + 24]
+        out.append(c)
     # real DataLoader, every batch size, with / without ctx, over a subset (the __getitems__ of torch Subset must not be used)
     plain = {"x": [["k", False]], "class": [], "semseg": []}
     for md in ("x", "index", "x class index", "index x x", "class ctx.k x"):
